@@ -47,7 +47,7 @@ NMAX = {'quick': 300, 'thorough': 1000}
 WALL_T1 = {'quick': 3.0, 'thorough': 8.0}
 WALL_T2 = {'quick': 40.0, 'thorough': 600.0}
 WALL_HARD_EXTRA = 15.0                                  # parent kills the child this long after the applicable cap
-SHARD_TIMEOUT = {'quick': 600, 'thorough': 3300}
+SHARD_TIMEOUT = {'quick': 1500, 'thorough': 3300}
 # A shard starts no new case once its children have used this much CPU time (so the set of executed cases does not
 # depend on the load of the machine), or once the wall-clock safety limit is reached (so that the worker always
 # reports before the runner's watchdog).  Skipped cases are counted, never a verdict.
@@ -62,6 +62,14 @@ SHARD_WALL_SAFETY = {'quick': 420.0, 'thorough': 2500.0}
 #   T3 -> undecided.  For cells already listed as known findings only the short cap T3_KNOWN is spent (the verdict
 #   never depends on the list, only the time spent does).
 EXT = 25
+# Calls stopped by a CPU cap are compared with the reference release (mpmath 1.3.0, own module state): when the release
+# returns within T_REF, the tree gets HANG_FACTOR times that time (at least T_HANG_MIN) in a fresh interpreter; still
+# not back -> violation C24/hang/... ("does not return where the release returns quickly"); the release is capped as
+# well -> undecided as before.
+NEEDS_REF = True
+T_REF = {'quick': 3.0, 'thorough': 8.0}
+HANG_FACTOR = 25
+T_HANG_MIN = {'quick': 30.0, 'thorough': 120.0}
 T3 = {'quick': 400.0, 'thorough': 800.0}
 T3_KNOWN = {'quick': 20.0, 'thorough': 300.0}
 DEADLINE_SLACK = {'quick': 20.0, 'thorough': 90.0}      # an extension beyond T1 must project to end before deadline+slack
@@ -150,6 +158,9 @@ def _clamp(x, xmax):
 
 
 def pick_prec(r, name, tier, style='generic'):
+    if style == 'precrel':
+        w = weight(name)
+        return r.choice([53, 53, 200, 200, 1000 if w > 0.3 else 113, 24, 100, 113, 333, 64, 400 if w > 0.1 else 100])
     x = r.random()
     w = math.sqrt(weight(name))
     if style in ('big', 'order'):
@@ -187,8 +198,36 @@ def magnitude(r, style, p, xmax):
     return min(max(m, 1e-300), float(xmax))
 
 
+def precrel_k(r, p):
+    """exponent k of a component 2^-k that is tiny *relative to the precision*: swept around p, where guard-bit and
+    balancing logic switches (p/2, 0.8 p ... p+30, also around the usual working precisions p+10, p+20)"""
+    c = r.random()
+    if c < 0.1:
+        return p // 2 + r.randint(-2, 2)
+    if c < 0.8:
+        return r.randint(int(0.8 * p), p + 30)
+    return p + r.choice([10, 20, 30]) + r.randint(-6, 6)
+
+
+def precrel_spec(r, kind, p, xmax):
+    """x + i 2^-k (or 2^-k + i y, or a real x +- 2^-k next to an integer) with moderate x"""
+    x = r.choice([0.3, 2.5, 7.25, -1.5, -0.75, 1.0, 2.0, 30.5, 0.5, r.uniform(-12, 40), r.uniform(0.05, 3)])
+    k = precrel_k(r, p)
+    tiny = canon(r.randint(0, 1), 1 if r.random() < 0.6 else (r.getrandbits(20) | 1), -k - (0 if r.random() < 0.6 else 20))
+    if kind == 'p':
+        return K.R(rawf(abs(x) + 0.25))
+    if kind == 'x':
+        n = int(round(x))
+        return K.R(canon(1 if n < 0 else 0, (abs(n) << k) + r.choice([-1, 1]), -k)) if n else K.R(tiny)
+    if r.random() < 0.7:
+        return K.C(rawf(x), tiny)
+    return K.C(tiny, rawf(x))
+
+
 def num_spec(r, kind, style, p, xmax):
     """kind 'x' real / 'z' real or complex / 'p' positive"""
+    if style == 'precrel':
+        return precrel_spec(r, kind, p, xmax)
     m = magnitude(r, style, p, xmax)
     if kind == 'p':
         return K.R(rawf(m))
@@ -262,7 +301,7 @@ def int_spec(r, kind, style, nmax):
     return max(lo, n)
 
 
-STYLES = ['generic', 'generic', 'edge', 'edge', 'edge', 'big', 'tiny', 'unit', 'nearint', 'order']
+STYLES = ['generic', 'precrel', 'edge', 'edge', 'edge', 'big', 'tiny', 'unit', 'nearint', 'order', 'precrel', 'generic']
 
 # shapes whose main (last / first) numeric argument should receive the magnitude style
 def gen_args(r, name, style, p, tier):
@@ -279,7 +318,7 @@ def gen_args(r, name, style, p, tier):
             k2 = {'x0': 'x'}.get(kind, kind)
             if ro and k2 == 'z':
                 k2 = 'x'
-            st = style if style in ('edge', 'big', 'tiny', 'unit') else 'generic'
+            st = style if style in ('edge', 'big', 'tiny', 'unit', 'precrel') else 'generic'
             if not last and len(kinds) > 1 and kind in ('z', 'p') and kinds[-1] in ('z', 'p', 'x') and r.random() < 0.6:
                 st = 'generic'            # leading numeric parameters (s of polylog, a of hurwitz ...) mostly moderate
             if kind == 'x0':
@@ -324,6 +363,8 @@ def gen_args(r, name, style, p, tier):
             if st == 'order' and nparam > 1 and r.random() < 0.5 and prev_param is not None:
                 st = 'generic'
             q = param_spec(r, st, p, xmax, real_only=ro)
+            if style == 'precrel' and not ro and r.random() < 0.4:
+                q = precrel_spec(r, 'z', p, xmax)
             # degenerate pairs: difference of two parameters an integer (hyp2f1 / hyperu / whit / legenp connection formulas)
             if prev_param is not None and r.random() < 0.15 and prev_param[0] in ('I', 'R') and q[0] != 'C':
                 q = _shift_spec(prev_param, r.choice([0, 1, -1, 2, -3, 10]))
@@ -383,6 +424,8 @@ DIRECTED = [
     ('digamma', 53, [K.R(rawf(3.0))]),                     # mpf_psi0 loop (guarded)
     ('digamma', 64, [K.R(rawf(-7.25))]),
     ('digamma', 53, [K.R(rawf(-1.9))]),
+    ('gamma', 200, [K.C(rawf(2.5), canon(0, 1, -200))]), ('loggamma', 1000, [K.C(rawf(0.3), canon(0, 1, -900))]),
+    ('rgamma', 53, [K.C(rawf(7.25), canon(1, 1, -73))]), ('factorial', 200, [K.C(rawf(7.25), canon(0, 1, -215))]),   # Im z = 2^-k, k ~ prec
     ('ei', 53, [K.R(rawf(45.0))]), ('ei', 100, [K.R(rawf(78.5))]), ('e1', 53, [K.R(rawf(44.0))]),   # Ei asymptotic cutoff 0.693 wp
     ('erfc', 53, [K.R(rawf(7.5))]), ('erfc', 200, [K.R(rawf(12.4))]),                                # erfc asymptotic cutoff
     ('laguerre', 53, [K.I(1), K.I(0), K.I(1)]), ('jacobi', 53, [K.I(1), K.I(0), K.I(0), K.I(0)]),      # hypsum gives up at maxprec (exact zero)
@@ -548,6 +591,10 @@ LOOPS = [
     # from 50 bits is beyond any maxprec the library derives (1000 p^0.25 + 4 p)
     ('mpmath.ctx_mp:MPContext.hypsum', r'^\s*wp = prec \+ extraprec',
      lambda L: 24 if L.get('extraprec', 0) <= 2 * L.get('maxprec', 10**30) else 0),
+    # Stirling series of log gamma, used after shifting |z| above 0.2 wp: smallest term at k ~ 2 pi |z| ~ 1.3 wp, k advances
+    # by 2 per iteration -> about 0.65 wp iterations at most
+    ('mpmath.libmp.gammazeta:real_stirling_series', r'^\s*p, q, pb, qb = stirling_coefficient\(k\)', lambda L: 3 * L.get('prec', 4000) + 200),
+    ('mpmath.libmp.gammazeta:complex_stirling_series', r'^\s*p, q, pb, qb = stirling_coefficient\(k\)', lambda L: 3 * L.get('prec', 4000) + 200),
     # n!/x^n is used for x > 0.693 wp: the terms vanish in fixed point before n reaches x (for huge x much earlier)
     ('mpmath.libmp.libhyper:ei_asymptotic', r'^\s*t = \(k\*t\*x\) >> prec', lambda L: 2 * L.get('prec', 4000) + 100),
     # erfc asymptotic series, used for x^2 * 1.44 > wp: smallest term at k ~ x^2 ~ 0.7 wp (for huge x much earlier)
@@ -583,7 +630,7 @@ class LoopMonitor(object):
             mon.use_tool_id(self.TOOL, 'vf-c24-loops')
         except ValueError:
             mon.free_tool_id(self.TOOL); mon.use_tool_id(self.TOOL, 'vf-c24-loops')
-        for name, rx, bound in LOOPS:
+        for name, rx, bound in (LOOPS if not os.environ.get('VERIF_C24_NOLOOPMON') else []):      # switch for self-validation only
             f = resolve(name)
             hit = []
             if f is not None:
@@ -856,7 +903,11 @@ def verdict(rec, case, res, tier):
     rec.cls('class/' + ('|x|<=1e4 (B=2e7)' if ct == 'quick' else '|x|<=1e6 (B=4e8)'))
     rec.cls('fn/' + name)
     rec.event('outermost calls under the step counter')
-    if opt and out in ('returned', 'documented'):
+    if opt.get('mode') == 'ref' and out in ('returned', 'documented'):
+        rec.cls('slow-but-returns (reference compared)/' + name)
+        rec.maximum('CPU time ratio tree/reference of calls first stopped by a cap', round((res.get('wall') or 0) / max(res.get('ref_cpu_s') or 0, 1e-3), 1),
+                    {'function': name, 'args': cdesc['args'], 'prec': p, 'tree_cpu_s': res.get('wall'), 'ref_cpu_s': res.get('ref_cpu_s')})
+    elif opt and out in ('returned', 'documented'):
         # extended pass: over B, but it terminates
         rec.cls('over-budget-but-terminates/' + name)
         rec.note('over budget B but terminates within %d*B (held)' % EXT,
@@ -891,6 +942,19 @@ def verdict(rec, case, res, tier):
     elif out == 'wall':
         cdesc['stack'] = res.get('stack')
         rec.undecided('CPU-time cap T1=%.0f s reached, step rate too low to reach the budget within T2=%.0f s' % (WALL_T1[tier], WALL_T2[ct]), cdesc)
+    elif opt.get('mode') == 'ref' and out == 'ref-capped':
+        cdesc['stack'] = opt.get('first_stack'); cdesc['steps'] = opt.get('first'); cdesc['cpu_s'] = opt.get('first_cpu')
+        rec.undecided('%s; the reference release does not return within %.0f s either'
+                      % ('CPU-time cap reached before the step budget (step rate too low)' if opt.get('first_out') in ('wall', 'wall2')
+                         else opt.get('first_out'), T_REF[tier]), cdesc)
+    elif opt.get('mode') == 'ref' and out == 'wall2':
+        cdesc['stack'] = res.get('stack'); cdesc['reference'] = {'outcome': res.get('ref_out'), 'cpu_s': res.get('ref_cpu_s')}
+        rec.violation('C24/hang/%s/%s' % (name, cell),
+                      '%s does not return within %.0f CPU s (%d steps so far) although release 1.3.0 %s in %.2f s for the same input: no bounded progress'
+                      % (name, res.get('tree_cpu_allowance_s') or 0, steps, 'returns' if res.get('ref_out') == 'returned' else 'raises ' + str(res.get('ref_out')),
+                         res.get('ref_cpu_s') or 0), cdesc,
+                      observed='still running after %.0f CPU s; interrupted at %s' % (res.get('wall') or 0, (res.get('stack') or ['?'])[-1]),
+                      expected='return or documented exception (the release needs %.2f CPU s)' % (res.get('ref_cpu_s') or 0))
     elif out == 'wall2' and opt.get('time_scaled'):
         cdesc['stack'] = res.get('stack'); cdesc['first_pass_cpu_s'] = opt.get('first_cpu')
         rec.violation('C24/budget/%s/%s' % (name, cell),
@@ -983,6 +1047,9 @@ def supervise(cases, rec, tier, t_start, confirm=None, final=True):
                         if confirm is not None and msg['out'] == 'budget':
                             rec.event('calls over the budget B (candidates for the extended pass)')
                             ext.add(cases[msg['i']], msg)
+                        elif confirm is not None and msg['out'] in ('wall', 'wall2'):
+                            rec.event('calls stopped by a CPU cap (compared with the reference release)')
+                            ext.add_ref(cases[msg['i']], msg)
                         elif confirm is not None and msg.get('tainted') and msg['out'] in ('undocumented', 'loopbound'):
                             confirm.append((cases[msg['i']], None))
                             rec.event('violation candidates seen in a tainted child, re-executed in a fresh one')
@@ -1053,17 +1120,23 @@ class ExtendedPasses(object):
         rate = first.get('steps', 0) / max(first.get('wall') or 0.0, 1e-3)
         projected = EXT * B / max(rate, 1.0)
         if projected > 1.25 * t3 and EXT * (first.get('wall') or 0.0) > t3:
-            cdesc = {'function': name, 'args': [show_spec(x) for x in specs], 'specs': specs, 'prec': p, 'style': style,
-                     'first_pass_steps': first.get('steps'), 'first_pass_cpu_s': first.get('wall'), 'stack': first.get('stack')}
-            rec.case((name, tuple(specs), p), True, cls='%s/over-budget:extended-pass-not-reachable' % K.ENTRIES[name][0])
-            rec.cls('fn/' + name)
-            rec.undecided('over the budget B; the extended budget %d*B is not reachable within the CPU cap (%d s) at the observed step rate%s'
-                          % (EXT, t3, ' [cell listed as known finding: short cap]' if key in self.known else ''), cdesc)
+            # 25*B cannot be reached within the cap: the reference release decides whether this is a hang
+            first = dict(first, out='over B; %d*B not reachable within the CPU cap (%d s)%s'
+                         % (EXT, t3, ' [cell listed as known finding: short cap]' if key in self.known else ''))
+            self.add_ref(c, first)
             return
         t_ext = EXT * max(first.get('wall') or 0.0, 0.5)
         job = (name, style, p, specs, {'budget': EXT * B, 't2': min(t_ext, t3), 'time_scaled': t_ext <= t3,
                                        'first': first.get('steps'), 'first_cpu': first.get('wall')})
         self.queue.append(job)
+        self.pump()
+
+    def add_ref(self, c, first):
+        name, style, p, specs = c[:4]
+        self.queue.append((name, style, p, specs, {'mode': 'ref', 'budget': EXT * first.get('budget', BUDGET['quick']),
+                                                   't2': T_REF[self.tier] + 2 * HANG_FACTOR * T_REF[self.tier],
+                                                   'first': first.get('steps'), 'first_cpu': first.get('wall'),
+                                                   'first_out': first.get('out'), 'first_stack': first.get('stack')}))
         self.pump()
 
     def pump(self):
@@ -1073,7 +1146,7 @@ class ExtendedPasses(object):
             job = self.queue.pop(0)
             fd, inpath = tempfile.mkstemp(prefix='vf-C24-ext-', suffix='.in.json')
             os.write(fd, json.dumps({'tier': self.tier, 'name': job[0], 'prec': job[2], 'specs': job[3],
-                                     'budget': job[4]['budget'], 't2': job[4]['t2']}).encode())
+                                     'budget': job[4]['budget'], 't2': job[4]['t2'], 'mode': job[4].get('mode', 'ext')}).encode())
             os.close(fd)
             outpath = inpath[:-8] + '.out.json'
             env = dict(os.environ)
@@ -1085,7 +1158,8 @@ class ExtendedPasses(object):
             env.setdefault('MPMATH_NOGMPY', '1')
             proc = subprocess.Popen([sys.executable, '-c', 'import sys; from vf.props import C24; C24.ext_main(sys.argv[1], sys.argv[2])',
                                      inpath, outpath], env=env, stdout=subprocess.DEVNULL, stderr=subprocess.DEVNULL)
-            self.rec.event('extended passes run (budget %d*B)' % EXT)
+            if job[4].get('mode') != 'ref':
+                self.rec.event('extended passes run (budget %d*B)' % EXT)
             self.running.append({'job': job, 'proc': proc, 'in': inpath, 'out': outpath, 't0': time.time()})
 
     def reap(self, j, block):
@@ -1155,14 +1229,49 @@ def ext_main(inpath, outpath):
     except Exception:
         pass
     global LOOPMON
+    t2 = d['t2']
+    extra = {}
+    if d.get('mode') == 'ref':
+        # 1. the reference release, under a plain CPU cap
+        from vf import refmodel
+        mr = refmodel.ref()
+        tier = d['tier']
+
+        def _cap(signum, frame):
+            raise WallTimeout()
+        signal.signal(signal.SIGPROF, _cap)
+        t0 = time.process_time()
+        ref_out = 'returned'
+        try:
+            signal.setitimer(signal.ITIMER_PROF, T_REF[tier])
+            try:
+                refmodel.call(mr.mp, d['name'], specs, d['prec'])
+            finally:
+                signal.setitimer(signal.ITIMER_PROF, 0)
+        except WallTimeout:
+            ref_out = 'capped'
+        except MemoryError:
+            ref_out = 'memory'
+        except Exception as e:
+            ref_out = 'exception:' + type(e).__name__
+        t_ref = time.process_time() - t0
+        extra = {'ref_out': ref_out, 'ref_cpu_s': round(t_ref, 3)}
+        if ref_out in ('capped', 'memory'):
+            with open(outpath, 'w') as f:
+                json.dump(dict(extra, out='ref-capped', steps=0, wall=0.0), f)
+            return
+        # 2. the tree again, with HANG_FACTOR times the time the release needed (at least T_HANG_MIN)
+        t2 = max(HANG_FACTOR * t_ref, T_HANG_MIN[tier])
+        extra['tree_cpu_allowance_s'] = round(t2, 1)
     sb = StepBudget(d['budget'])
     sb.install()
     watch = Watch(sb, d['tier'], 1e9)
     signal.signal(signal.SIGPROF, watch)
     LOOPMON = LoopMonitor().install()
-    res = run_one(mpmath.mp, sb, watch, d['name'], specs, d['prec'], d['budget'], d['t2'], full=True)
+    res = run_one(mpmath.mp, sb, watch, d['name'], specs, d['prec'], d['budget'], t2, full=True)
     res['budget'] = d['budget']
     res['extended_pass'] = True
+    res.update(extra)
     with open(outpath, 'w') as f:
         json.dump(res, f)
 
